@@ -86,8 +86,8 @@ def make_case(tier, seed, index):
         return {"kind": "entry", "which": ["connect:ET", "connect:DT", "connect:ES", "discover"][index % 4],
                 "seed": index, "transport": "udp"}
     index -= 40
-    fam = ["ET", "ES", "DT", "ETv1"][index % 4]
-    kind = INVALID_KINDS[(index // 4) % len(INVALID_KINDS)]
+    fam = ["ET", "ES", "DT", "ETv1", "ETnoeco"][index % 5]
+    kind = INVALID_KINDS[(index // 5) % len(INVALID_KINDS)]
     base = {"export": [-1, -2, -3, -70000, -32768, -32769, -65536, -65537, -(1 << 31)],
             "dod": [-1, -2, 101, 102, 103, 255, 256, 65536, 70000, -70000, -128, 128, 1000],
             "eco_power": [-1, -2, 101, 102, 256, 1000, 70000, -70000, -100, 200],
@@ -340,6 +340,11 @@ def run_invalid(case):
         # firmware without the 12-byte eco groups: the probe of 47547 is refused
         dev, inv = _build(goodwe, "ET", tr, caps=("battery",), seed=case["seed"])
         fam = "ET"
+    elif fam == "ETnoeco":
+        # an inverter that refuses both kinds of eco groups; the library has learnt it from a read (the id is pruned)
+        dev, inv = _build(goodwe, "ET", tr, caps=("battery",), seed=case["seed"])
+        dev.exc_map.append((47515, 47546, 2))
+        fam = "ET"
     else:
         dev, inv = _build(goodwe, fam, tr, seed=case["seed"])
     world.net.add_device(C.HOST, C.port_of(tr), dev)
@@ -355,6 +360,8 @@ def run_invalid(case):
 
     async def main():
         await inv.read_device_info()
+        if case["family"] == "ETnoeco":
+            await C.do_call(world, "probe", lambda: inv.read_setting("eco_mode_1"))
         for a in case["args"]:
             label = f"INV:{kind}:{a}"
             dev.label = label
